@@ -118,7 +118,8 @@ class World:
         self.cycles = []
         self.fp_before = {}     # handle -> (fingerprint value, contents) last returned
         self.unsupported = None
-        self.seen_ids = set()
+        self.cur_sids = set()
+        self.retired = set()
 
     # -- identities
     def sid(self, tup):
@@ -234,6 +235,13 @@ def snapshot_state(w):
             if tid not in w.sidmap:
                 w.sidmap[tid] = len(w.sidmap)
             reg.append(f"({cnat(w.sidmap[tid])}, {clist(cnat(x) for x in hs)})")
+    now = {w.sid(o.__dict__.get("_underlying")) for o in live.values()} - {0}
+    w.retired |= (w.cur_sids - now)
+    back = (now - w.cur_sids) & w.retired
+    if back:
+        w.stats["reuse"] += len(back)       # a freed storage identity was handed out again
+        w.retired -= back
+    w.cur_sids = now
     return f"(mkSt {clist(heap)} {clist(reg)})", shadow, live
 
 
